@@ -31,6 +31,23 @@ func famC20(g *Gen, o *Out, n int, thorough bool) {
 		var buf bytes.Buffer
 		p := tmpPath(fmt.Sprintf("c20-%d.car", c))
 		os.Remove(p)
+		// a destination that already exists (shorter / much longer than what will be written): the
+		// deferred writer creates the file afresh at the first Put, exactly like a direct writer on a
+		// new file; until then the old file is untouched
+		pre := "absent"
+		var old []byte
+		if target == "path" {
+			switch g.pick(3) {
+			case 1:
+				pre, old = "shorter", g.bytes(1+g.pick(40))
+			case 2:
+				pre, old = "longer", g.bytes(6000+g.pick(3000))
+			}
+			if old != nil {
+				os.WriteFile(p, old, 0o644)
+			}
+		}
+		touched := false
 		var dcw *deferred.DeferredCarWriter
 		eff := wo
 		if target == "path" {
@@ -50,9 +67,16 @@ func famC20(g *Gen, o *Out, n int, thorough bool) {
 			if err != nil {
 				return "exists=0 out=-"
 			}
+			if old != nil && !touched {
+				if bytes.Equal(b, old) {
+					return "exists=0 out=-" // still the caller's old file, byte for byte: nothing created yet
+				}
+				touched = true
+			}
 			return "exists=1 out=" + hexOr(b)
 		}
-		o.Line(fmt.Sprintf("dopen target=%s %s roots=%s", target, wo, rootsArg(roots)), "r=ok "+state())
+		o.Line(fmt.Sprintf("dopen target=%s pre=%s %s roots=%s", target, pre, wo, rootsArg(roots)), "r=ok "+state())
+		o.Count("pre/" + pre)
 		var fired []string
 		nextID := 1
 		steps := 3 + g.pick(10)
